@@ -5,6 +5,7 @@ import (
 	"sync"
 
 	"github.com/lugu/qiloop/bus/net"
+	"github.com/lugu/qiloop/vhook"
 )
 
 // DirectClient creates a pipe and connect obj to a client.
@@ -93,6 +94,7 @@ func (c *clientService) Add(obj Actor) (uint32, error) {
 	c.objectsMutex.Lock()
 	defer c.objectsMutex.Unlock()
 	c.objectsHandlers[id] = c.context.EndPoint().MakeHandler(filter, queue, closer)
+	vhook.Emit("cservice", c, "add", "object", id, "slot", c.objectsHandlers[id], "actor", vhook.ID(obj))
 	return id, nil
 }
 
@@ -100,10 +102,12 @@ func (c *clientService) Remove(objectID uint32) error {
 	c.objectsMutex.Lock()
 	handlerID, ok := c.objectsHandlers[objectID]
 	if !ok {
+		vhook.Emit("cservice", c, "remove_unknown", "object", objectID)
 		c.objectsMutex.Unlock()
 		return fmt.Errorf("cannot remove unkown object ID: %d", objectID)
 	}
 	delete(c.objectsHandlers, objectID)
+	vhook.Emit("cservice", c, "remove", "object", objectID, "slot", handlerID)
 	c.objectsMutex.Unlock()
 	return c.context.EndPoint().RemoveHandler(handlerID)
 }
